@@ -10,6 +10,7 @@ scenario = {
   "runs": [ [dial, ...], ... ]     dial = ["R"] | ["J", status] | ["E", [[dt, burst, kind, hexpayload], ...]]
   "sched": string of 0/1           order at simultaneous wakes (1 = the other thread first)
   an event may be [dt, burst, kind, hex, cut, lead]: (real runs only) its first `cut` bytes arrive `lead` ticks early
+  plan character "z" (real runs only): the handler takes "cb_delay" ticks
   "closer": optional [t, ...]      (real runs only) a second thread calling app.close() at tick t
   "writes_fail": optional [i, t]   (real runs only) every write on connection i fails (EHOSTUNREACH) from tick t on; reads stay silent
 }
@@ -256,6 +257,9 @@ class ExtDispatcher:
         while not self.stopped:
             if not self.readers and self._periodic_only():
                 return
+            # a closed socket is no longer watched (the OS drops a closed descriptor from the poll set; `rel` likewise)
+            for key in [key for key, (k, _) in self.readers.items() if getattr(k, "closed", False)]:
+                self.readers.pop(key, None)
             socks = [k for k, _ in self.readers.values()]
             dl = min((t[0] for t in self.timers), default=None)
 
@@ -272,7 +276,7 @@ class ExtDispatcher:
                     t[0] = self.s.now + t[4]
                     self.timers.append(t)
             for key, (k, cb) in list(self.readers.items()):
-                if key in self.readers and k.sim_readable():
+                if key in self.readers and not getattr(k, "closed", False) and k.sim_readable():
                     if not cb():
                         self.readers.pop(key, None)
 
@@ -313,6 +317,9 @@ def run_real(sc, line_preempt=None, wall_s=20.0, max_steps=6000):
                 raise KeyboardInterrupt()
             if a == "c":
                 app.close()
+            if a == "z":
+                # (real runs only) a handler that TAKES TIME: `cb_delay` ticks pass inside the callback
+                s.block(None, s.now + int(sc.get("cb_delay", 1)))
         f.__name__ = name
         return f
     mask = sc.get("cbs", ALL)
